@@ -307,4 +307,8 @@ theorem commentOf_blank (cur : Option Str) (a b : List Str) (l : Str) (hl : stri
     simp only [List.cons_append, commentOf]
     split <;> exact ih _
 
+theorem pointwise_map (R : Str → Str → Prop) (f : Str → Str) (h : ∀ l, R l (f l)) : ∀ ls : List Str, Pointwise R ls (ls.map f)
+  | [] => Pointwise.nil
+  | l :: ls => Pointwise.cons (h l) (pointwise_map R f h ls)
+
 end NemoVerif.NumberedLines
